@@ -50,21 +50,28 @@ NoE          == E("none", "", <<>>, 0, 1)
 
 IsLiteral(e) == e.k \in {"lit", "real", "bool"}
 
-(* variable: type, prefix, start / value expressions (NoE when absent), fixed in {"none","true","false"} *)
-Var(key, type, pre, start, value, fixed) ==
-    [key |-> key, type |-> type, pre |-> pre, start |-> start, value |-> value, fixed |-> fixed]
+(* variable: type, prefixes in source order (flow, variability, causality), start / value expressions (NoE when
+   absent), fixed in {"none","true","false"} *)
+Var(key, type, pres, start, value, fixed) ==
+    [key |-> key, type |-> type, pres |-> pres, start |-> start, value |-> value, fixed |-> fixed]
+HasPre(v, x) == \E i \in DOMAIN v.pres : v.pres[i] = x
 (* equations: ordinary, declaration (left side is the variable's Symbol node), when *)
 Eq(l, r)        == [k |-> "eq", l |-> l, r |-> r, key |-> "", cond |-> NoE, then |-> <<>>, elsew |-> <<>>]
 DeclEq(key, r)  == [k |-> "decl", l |-> Ref(key), r |-> r, key |-> key, cond |-> NoE, then |-> <<>>, elsew |-> <<>>]
 When(c, th, ew) == [k |-> "when", l |-> NoE, r |-> NoE, key |-> "", cond |-> c, then |-> th, elsew |-> ew]
 Branch(c, th)   == [cond |-> c, then |-> th]
 
-Variability(v) == IF v.pre \in {"parameter", "constant", "discrete"} THEN v.pre ELSE "continuous"
+(* the variability of a variable is its variability prefix, whatever other prefixes (flow, input, output) it carries *)
+Variability(v) == IF HasPre(v, "discrete") THEN "discrete" ELSE IF HasPre(v, "parameter") THEN "parameter"
+                  ELSE IF HasPre(v, "constant") THEN "constant" ELSE "continuous"
 (* flatten(): a declared value of a variable that is not a parameter/constant becomes an equation *)
-KeepsValue(v) == v.pre \in {"parameter", "constant"}
+KeepsValue(v) == HasPre(v, "parameter") \/ HasPre(v, "constant")
+(* expand_connectors(): a flow variable that is in no connection set gets the equation  v = 0  (left side: its Symbol) *)
 FlatEqs(p) ==
     LET idx == SelectSeq([i \in DOMAIN p.vars |-> i], LAMBDA i : p.vars[i].value # NoE /\ ~KeepsValue(p.vars[i]))
-    IN  p.eqs \o [j \in DOMAIN idx |-> DeclEq(p.vars[idx[j]].key, p.vars[idx[j]].value)]
+        fl  == SelectSeq([i \in DOMAIN p.vars |-> i], LAMBDA i : HasPre(p.vars[i], "flow"))
+    IN  p.eqs \o [j \in DOMAIN fl |-> DeclEq(p.vars[fl[j]].key, Lit(0))]
+              \o [j \in DOMAIN idx |-> DeclEq(p.vars[idx[j]].key, p.vars[idx[j]].value)]
 FlatValue(v) == IF KeepsValue(v) THEN v.value ELSE NoE
 
 -----------------------------------------------------------------------------
@@ -201,6 +208,14 @@ BuildExpr(h, e) ==
 (* exitSymbol: raises when start / value is not a literal and the generator reads `.value` of it *)
 SymbolRaises(v, sw) == ~sw.exattr /\ ((v.start # NoE /\ ~IsLiteral(v.start))
                                      \/ (FlatValue(v) # NoE /\ ~IsLiteral(FlatValue(v))))
+(* exitSymbol: `for v_type in ["discrete", "continuous", "parameter", "constant"]: if v_type in prefixes: break`;
+   no match leaves the attribute out, which readers take as continuous *)
+VTypes == <<"discrete", "continuous", "parameter", "constant">>
+RECURSIVE ScanVariability(_, _)
+ScanVariability(pres, types) ==
+    IF types = <<>> THEN "continuous"
+    ELSE IF \E i \in DOMAIN pres : pres[i] = Head(types) THEN Head(types)
+    ELSE ScanVariability(pres, Tail(types))
 BuildItem(h, name, e) ==
     LET r == BuildExpr(h, e) IN NewElem(r.h, "item", A1("name", name), NoNum, <<r.id>>)
 BuildSymbol(h, v) ==
@@ -212,7 +227,7 @@ BuildSymbol(h, v) ==
         items == SelectSeq(<<r1.id, r2.id, r3.id>>, LAMBDA i : i # 0)
         m  == NewElem(r3.h, "modifier", <<>>, NoNum, items)
         b  == NewElem(m.h, "builtin", A1("name", v.type), NoNum, <<>>)
-    IN  NewElem(b.h, "component", <<<<"name", v.key>>, <<"variability", Variability(v)>>>>, NoNum, <<b.id, m.id>>)
+    IN  NewElem(b.h, "component", <<<<"name", v.key>>, <<"variability", ScanVariability(v.pres, VTypes)>>>>, NoNum, <<b.id, m.id>>)
 
 (* exitEquation / exitWhenEquation; cid: key -> component element id *)
 RECURSIVE BuildEq(_, _, _, _), BuildEqs(_, _, _, _, _)
@@ -268,8 +283,8 @@ Fill(e, pal, i) ==
     IF e.k = "hole" THEN [e |-> pal[((i - 1) % Len(pal)) + 1], i |-> i + 1]
     ELSE LET r == FillArgs(e.a, pal, i, <<>>) IN [e |-> [e EXCEPT !.a = r.a], i |-> r.i]
 
-RealV(k)  == Var(k, "Real", "none", NoE, NoE, "none")
-BaseVars == <<RealV("x"), RealV("y"), Var("p", "Real", "parameter", NoE, Lit(2), "none"), RealV("w")>>
+RealV(k)  == Var(k, "Real", <<>>, NoE, NoE, "none")
+BaseVars == <<RealV("x"), RealV("y"), Var("p", "Real", <<"parameter">>, NoE, Lit(2), "none"), RealV("w")>>
 PalA == <<Ref("x"), Ref("y"), Ref("p"), Lit(3)>>
 PalB == <<Der("x"), TimeE, RealL(5, 2), Ref("y")>>
 Prog(fam, vs, eqs) == [fam |-> fam, vars |-> vs, eqs |-> eqs]
@@ -277,7 +292,7 @@ ExprProgs(shapes, pal) == {Prog("expr", BaseVars, <<Eq(Ref("w"), Fill(s, pal, 1)
 
 (* relational / logical operators, Boolean literals, calls of other arities *)
 RelOps == {"<", "<=", ">", ">=", "==", "<>"}
-BoolVars == <<RealV("x"), RealV("y"), Var("b", "Boolean", "none", NoE, NoE, "none"), Var("c", "Boolean", "none", NoE, NoE, "none")>>
+BoolVars == <<RealV("x"), RealV("y"), Var("b", "Boolean", <<>>, NoE, NoE, "none"), Var("c", "Boolean", <<>>, NoE, NoE, "none")>>
 BoolProgs ==
     {Prog("bool", BoolVars, <<Eq(Ref("b"), e)>>) :
         e \in {Bin(o, Ref("x"), Ref("y")) : o \in RelOps}
@@ -291,23 +306,30 @@ BoolProgs ==
 
 (* one variable of every kind; `k` is a parameter the value expression may mention *)
 Types == {"Real", "Integer", "Boolean"}
-Pres  == {"none", "parameter", "constant", "discrete", "input", "output"}
+Pres  == {<<>>, <<"parameter">>, <<"constant">>, <<"discrete">>, <<"input">>, <<"output">>}
+(* variability together with causality / flow: the variability must survive whatever follows or precedes it *)
+Pres2 == {<<"parameter", "input">>, <<"constant", "input">>, <<"discrete", "input">>, <<"parameter", "output">>,
+          <<"constant", "output">>, <<"discrete", "output">>, <<"flow">>, <<"flow", "discrete">>, <<"flow", "parameter">>}
 StartsOf(t) == IF t = "Boolean" THEN {NoE, BoolL(TRUE), BoolL(FALSE)}
                ELSE IF t = "Integer" THEN {NoE, Lit(0), Lit(3), Un("-", Lit(1))}
                ELSE {NoE, Lit(0), Lit(3), RealL(5, 2), Un("-", Lit(1))}
 ValuesOf(t) == IF t = "Boolean" THEN {NoE, BoolL(TRUE), Un("not", BoolL(TRUE))}
                ELSE IF t = "Integer" THEN {NoE, Lit(4), Un("-", Lit(4))}
                ELSE {NoE, Lit(4), RealL(1, 4), Un("-", Lit(4)), Bin("*", Lit(2), Ref("k"))}
-KVar == Var("k", "Real", "parameter", NoE, Lit(2), "none")
+KVar == Var("k", "Real", <<"parameter">>, NoE, Lit(2), "none")
 CompProgs(fixeds) ==
     {Prog("comp", <<KVar, Var("v", t, pre, st, va, fx), RealV("z")>>, <<Eq(Ref("z"), Ref("k"))>>) :
         t \in Types, pre \in Pres, st \in UNION {StartsOf(tt) : tt \in Types}, va \in UNION {ValuesOf(tt) : tt \in Types}, fx \in fixeds}
 CompOK(p) == LET v == p.vars[2] IN v.start \in StartsOf(v.type) /\ v.value \in ValuesOf(v.type)
 (* two declaration equations and an ordinary one: order of the flat equations *)
-TwoDecl == {Prog("comp", <<Var("v", "Real", "none", NoE, Lit(4), "none"), Var("u", "Real", pre, Lit(1), Bin("+", Ref("v"), Lit(1)), "none"),
-                           RealV("z")>>, <<Eq(Ref("z"), Ref("v"))>>) : pre \in {"none", "output", "discrete"}}
+TwoDecl == {Prog("comp", <<Var("v", "Real", <<>>, NoE, Lit(4), "none"), Var("u", "Real", pre, Lit(1), Bin("+", Ref("v"), Lit(1)), "none"),
+                           RealV("z")>>, <<Eq(Ref("z"), Ref("v"))>>) : pre \in {<<>>, <<"output">>, <<"discrete">>}}
+(* two prefixes on one declaration, with and without literal start / value *)
+Comp2Progs(types) ==
+    {Prog("comp2", <<KVar, Var("v", t, pre, st, va, "none"), RealV("z")>>, <<Eq(Ref("z"), Ref("k"))>>) :
+        t \in types, pre \in Pres2, st \in {NoE, Lit(3)}, va \in {NoE, Lit(4)}}
 
-WhenVars == <<RealV("x"), Var("d", "Real", "discrete", NoE, NoE, "none"), Var("e", "Real", "discrete", NoE, NoE, "none")>>
+WhenVars == <<RealV("x"), Var("d", "Real", <<"discrete">>, NoE, NoE, "none"), Var("e", "Real", <<"discrete">>, NoE, NoE, "none")>>
 WhenProgs ==
     {Prog("when", WhenVars, <<Eq(Der("x"), Lit(1)), When(Bin(">", Ref("x"), Lit(2)), th, ew)>>) :
         th \in {<<Eq(Ref("d"), Bin("+", Ref("x"), Lit(1)))>>, <<Eq(Ref("d"), Lit(1)), Eq(Ref("e"), Ref("x"))>>},
@@ -317,13 +339,14 @@ WhenProgs ==
 Programs ==
     CASE Family = "quick" ->
             ExprProgs(S2({"sin"}, {"atan2"}), PalA) \cup ExprProgs(S1({"sin", "abs"}, {"atan2", "max"}), PalB)
-            \cup BoolProgs \cup {p \in CompProgs({"none"}) : CompOK(p)} \cup TwoDecl \cup WhenProgs
+            \cup BoolProgs \cup {p \in CompProgs({"none"}) : CompOK(p)} \cup TwoDecl \cup WhenProgs \cup Comp2Progs({"Real"})
       [] Family = "thorough" ->
             ExprProgs(S2({"sin", "abs"}, {"atan2"}), PalA) \cup ExprProgs(S2({"sin"}, {"atan2"}), PalB)
             \cup BoolProgs \cup {p \in CompProgs({"none", "true", "false"}) : CompOK(p)} \cup TwoDecl \cup WhenProgs
+            \cup Comp2Progs({"Real", "Integer"})
       [] Family = "cex" ->
             ExprProgs(S1({"sin"}, {"atan2"}), PalA) \cup TwoDecl \cup WhenProgs
-            \cup {p \in CompProgs({"none"}) : CompOK(p) /\ p.vars[2].type = "Real" /\ p.vars[2].pre \in {"none", "parameter"}}
+            \cup {p \in CompProgs({"none"}) : CompOK(p) /\ p.vars[2].type = "Real" /\ p.vars[2].pres \in {<<>>, <<"parameter">>}}
 
 -----------------------------------------------------------------------------
 (* ---- behaviour ---- *)
@@ -428,14 +451,18 @@ Pred(p, sw) ==   \* the generator as one function of the switches (as-built pred
              m   == NewElem(d.h, "modelica", A1("format", "1.0"), NoNum, <<d.id>>)
          IN  [raises |-> FALSE, xml |-> TreeOf(m.h, m.id)]
 
-AsBuilt == [decl |-> FALSE, elsew |-> FALSE, exattr |-> FALSE]
+(* Pinned: the switches as the originally pinned code behaved (shape tags); AsBuilt: the code now (all three repaired) *)
+Pinned == [decl |-> FALSE, elsew |-> FALSE, exattr |-> FALSE]
+AsBuilt == [decl |-> TRUE, elsew |-> TRUE, exattr |-> TRUE]
 
 Tags(p) ==
     {p.fam}
+    \cup (IF \E i \in DOMAIN p.vars : Len(p.vars[i].pres) > 1 THEN {"two-prefixes"} ELSE {})
+    \cup (IF \E i \in DOMAIN p.vars : HasPre(p.vars[i], "flow") THEN {"flow"} ELSE {})
     \cup (IF \E q \in DOMAIN FlatEqs(p) : FlatEqs(p)[q].k = "decl" THEN {"decl-eq"} ELSE {})
     \cup (IF \E q \in DOMAIN p.eqs : p.eqs[q].k = "when" /\ p.eqs[q].elsew # <<>> THEN {"elsewhen"} ELSE {})
     \cup (IF \E q \in DOMAIN p.eqs : p.eqs[q].k = "when" THEN {"when"} ELSE {})
-    \cup (IF \E i \in DOMAIN p.vars : SymbolRaises(p.vars[i], AsBuilt) THEN {"attr-expr"} ELSE {})
+    \cup (IF \E i \in DOMAIN p.vars : SymbolRaises(p.vars[i], Pinned) THEN {"attr-expr"} ELSE {})
     \cup (IF \E i \in DOMAIN p.vars : p.vars[i].type = "Boolean" /\ (p.vars[i].start # NoE \/ p.vars[i].value # NoE) THEN {"bool-attr"} ELSE {})
 
 SetToSeq(S) == LET RECURSIVE f(_) f(R) == IF R = {} THEN <<>> ELSE LET x == CHOOSE x \in R : TRUE IN <<x>> \o f(R \ {x}) IN f(S)
